@@ -427,3 +427,220 @@ def pattern_once(S, pm, rule, inst):
 
 def atom_key_s(k):
     return atom_s(k + (True,))[:70]
+
+
+# ------------------------------------------------------------------------------------------
+# generic per-field statement checker
+# ------------------------------------------------------------------------------------------
+
+def atoms_after_loop(atoms, L):
+    out = []
+    seen = False
+    for a in atoms:
+        if a[0] in ('loop', 'via') and a[1] == L:
+            seen = True
+            continue
+        if seen and a[0] not in ('loop', 'via'):
+            out.append(a)
+    return out
+
+
+def method_or_builtin(S, site, hole, L):
+    """`let f = field_attribute.method.as_ref().unwrap_or_else(|| { types.push(&field.ty); &built_in });`
+    returns ('method-or', builtin path string, closure ctx id) if the hole has that shape for loop L's field, else None"""
+    t = S.hole_term(site, hole)
+    if not (isinstance(t, tuple) and t[0] == 'mcall' and t[2] == 'unwrap_or_else' and len(t) == 4 and isinstance(t[3], tuple) and t[3][0] == 'closure'):
+        return None
+    if not S.attr_rec_ok(t[1], L, 'method'):
+        return None
+    cid = t[3][1]
+    # value of the closure: `&built_in` -> constant path template
+    fw = site.tmpl.fw
+    tm = site.tmpl.terms
+    val = None
+    for ev in fw.events:
+        if ev.kind == 'closure' and ev.entry['id'] == cid:
+            body = ev.node['body']
+            if body['k'] == 'Block':
+                val = tm.block_value_term(body, 0)
+            else:
+                val = tm.value_in_recorded_scope(body, 0)
+    if not (isinstance(val, tuple) and val[0] == 'unwrap' and isinstance(val[1], tuple) and val[1][0] == 'call' and str(val[1][1]).endswith('parse2')):
+        return None
+    tt = val[1][2]
+    if not (isinstance(tt, tuple) and tt[0] == 'tmpl'):
+        return None
+    for t2 in S.cx.gm.templates:
+        if id(t2.mac) == tt[1]:
+            if t2.holes:
+                return None
+            return ('method-or', t2.text().replace(' ', ''), cid)
+    return None
+
+
+class FieldStmts:
+    """checks the per-field statements of one accumulator inside one field loop"""
+
+    def __init__(self, S, rule):
+        self.S = S
+        self.rule = rule
+
+    def run(self, sites, label, loop_kind, match_stmt, resolver, allowed_extra=lambda a, L: False, expect_count=None,
+            builtin_for=None, need_ignore=True):
+        """match_stmt(site) -> list of ops [(kind, callee, [operand exprs])] or str error.
+        resolver(site, expr, role_index, L) -> True | message.
+        builtin_for: expected builtin callee path(s) for kind 'builtin'."""
+        S, rule = self.S, self.rule
+        if not sites:
+            S.bad(rule, label + '-none', 'no per-field statement is emitted for this shape')
+            return False
+        good = True
+        entries = []
+        loop_ids = set()
+        for s in sites:
+            atoms = S.atoms(s)
+            la, lk = S.field_loop(atoms)
+            if la is None or lk != loop_kind:
+                S.bad(rule, label + '-loop', 'a per-field statement is emitted outside the loop over the %s fields (context: %s)' % (loop_kind, [atom_s(a) for a in atoms][:6]), s)
+                good = False
+                continue
+            if not S.loop_in_decl_order(la):
+                S.bad(rule, label + '-order', 'fields are not visited in declaration order', s)
+                good = False
+            L = la[1]
+            loop_ids.add(L)
+            entries.append((s, atoms, L))
+            ops = match_stmt(s)
+            if isinstance(ops, str):
+                S.bad(rule, label + '-form', ops + ': `%s`' % s.tmpl.text()[:140], s)
+                good = False
+                continue
+            ign = [p for p in (S.attr_atom(x, L, 'ignore') for x in atoms) if p is not None]
+            if need_ignore and ign != [False]:
+                S.bad(rule, label + '-ignore-guard', 'the statement is not emitted exactly under "field not ignored" (ignore guards: %s)' % ign, s)
+                good = False
+            if not need_ignore and ign:
+                S.bad(rule, label + '-ignore-guard', 'unexpected ignore guard', s)
+                good = False
+            meth = [p for p in (S.attr_atom(x, L, 'method') for x in atoms) if p is not None]
+            for kind, callee, operands in ops:
+                if kind == 'method':
+                    mt = S.hole_term(s, callee)
+                    mo = method_or_builtin(S, s, callee, L)
+                    if mo is not None:
+                        if builtin_for is not None and mo[1] not in builtin_for:
+                            S.bad(rule, label + '-builtin', 'without a custom method the field is handled by `%s` (expected %s)' % (mo[1], sorted(builtin_for)), s)
+                            good = False
+                        if meth:
+                            S.bad(rule, label + '-method-guard', 'method-or-builtin callee additionally guarded by %s' % meth, s)
+                            good = False
+                    elif isinstance(mt, tuple) and mt[0] == 'some_of' and S.attr_rec_ok(mt[1], L, 'method'):
+                        if meth != [True]:
+                            S.bad(rule, label + '-method-guard', 'the custom method is used under guards %s (expected exactly "method given")' % meth, s)
+                            good = False
+                    else:
+                        S.bad(rule, label + '-method', '`#%s` is not this field\'s own `method` attribute (term %s)' % (callee, term_s(mt, 100)), s)
+                        good = False
+                elif kind == 'builtin':
+                    if builtin_for is not None and callee not in builtin_for:
+                        S.bad(rule, label + '-builtin', 'the field is handled by `%s` (expected %s)' % (callee, sorted(builtin_for)), s)
+                        good = False
+                    if meth != [False]:
+                        S.bad(rule, label + '-builtin-guard', 'the built-in operation is not emitted exactly under "no method given" (guards %s)' % meth, s)
+                        good = False
+                for i, e in enumerate(operands):
+                    r = resolver(s, e, i, L)
+                    if r is not True:
+                        S.bad(rule, label + '-operand%d' % (i + 1), 'operand %d is wrong: %s' % (i + 1, r), s)
+                        good = False
+            extra = [x for x in atoms_after_loop(atoms, L) if S.attr_atom(x, L, 'ignore') is None and S.attr_atom(x, L, 'method') is None and not allowed_extra(x, L)]
+            if extra:
+                S.bad(rule, label + '-extra-guard', 'the statement is additionally conditioned on %s: for other inputs the field is silently skipped' % [atom_s(x)[:100] for x in extra], s)
+                good = False
+        for L in loop_ids:
+            es_ = [at for s, at, l in entries if l == L]
+            counts, keys = S.count_per_path(es_, L)
+            if counts is None:
+                S.bad(rule, label + '-paths', 'too many conditions to enumerate')
+                good = False
+                continue
+            for asg, (n, d) in counts.items():
+                skip = False
+                for k, v in d.items():
+                    if allowed_extra(k + (v,), L) is False and allowed_extra(k + (not v,), L) is True:
+                        skip = True   # this path is a rejected input (e.g. duplicate rank)
+                if skip:
+                    continue
+                ign_true = any(v for k, v in d.items() if S.attr_atom(k + (True,), L, 'ignore') is not None)
+                exp = expect_count(d, L) if expect_count else (0 if ign_true else 1)
+                if n != exp:
+                    S.bad(rule, label + '-once', 'on the path %s a field gets %d statements (expected %d)' % ([('' if v else '!') + atom_key_s(k) for k, v in d.items()], n, exp))
+                    good = False
+                    break
+        return good
+
+
+def struct_member_resolver(S, bases):
+    """operands `&<base>.#member` for bases[i]"""
+    def resolver(s, e, i, L):
+        want, refs_want, mut_want = bases[i]
+        a = access(e)
+        if a is None or a[0] != 'member':
+            return '`%s` is not `%s%s.<field>`' % (es(e)[:60], '&' * refs_want, want)
+        _, base, hole, refs, mut = a
+        if base != want or refs != refs_want or mut != mut_want:
+            return '`%s` (expected `%s%s%s.<field>`)' % (es(e)[:60], '&' * refs_want, 'mut ' if mut_want else '', want)
+        mt = S.hole_term(s, hole)
+        if member_of_loop(mt, L) is None:
+            return '`#%s` is not the member of the field being visited (%s)' % (hole, term_s(mt, 80))
+        return True
+    return resolver
+
+
+def binder_resolver(S, pms):
+    """operands are binders of pattern models pms[i] (same field loop)"""
+    def resolver(s, e, i, L):
+        pm = pms[i]
+        acc = access(e)
+        if acc is None or acc[0] not in ('var',) or acc[2] != 0:
+            return '`%s` is not a pattern-bound variable' % es(e)[:60]
+        bt = S.hole_term(s, acc[1])
+        ent = pm.binder(bt)
+        if ent is None:
+            for j, other in enumerate(pms):
+                if other is not pm and other.binder(bt) is not None:
+                    return '`#%s` is bound by the pattern matched against `%s`, not `%s`' % (acc[1], other.scrutinee, pm.scrutinee)
+            return '`#%s` is not bound by the `%s` pattern' % (acc[1], pm.scrutinee)
+        if ent.loop_id != L:
+            return '`#%s` is the binder of another field loop' % acc[1]
+        if pm.kind == 'named' and member_of_loop(ent.name_term, L) is None:
+            return 'binder `#%s` is attached to a field name that is not the visited field' % acc[1]
+        return True
+    return resolver
+
+
+def variant_arms(S, rule, msite, arms_hole, need_shapes=('Unit', 'Named', 'Unnamed')):
+    """one arm template per variant shape, emitted in the in-order variants loop under exactly the shape guard"""
+    arm_sites = S.kids(msite, arms_hole)
+    by_shape = {}
+    ok = True
+    for a in arm_sites:
+        atoms = S.atoms(a)
+        vl = S.variant_loop(atoms)
+        if vl is None or not S.loop_in_decl_order(vl):
+            S.bad(rule, 'enum-arm-loop', 'an arm is emitted outside the in-order loop over the variants', a)
+            ok = False
+            continue
+        V = vl[1]
+        shapes = [x for x in atoms if x[0] == 'shape' and x[1] == ('field', ('elem', V), 'fields') and x[3] is True]
+        extra = [x for x in atoms_after_loop(atoms, V) if x not in shapes]
+        if len(shapes) != 1 or extra:
+            S.bad(rule, 'enum-arm-guard', 'an arm is emitted under %s (expected exactly the variant\'s shape)' % [atom_s(x)[:80] for x in atoms_after_loop(atoms, V)], a)
+            ok = False
+            continue
+        by_shape.setdefault(shapes[0][2], []).append((a, V))
+    for sh in need_shapes:
+        if len(by_shape.get(sh, [])) != 1:
+            S.bad(rule, 'enum-arm-%s' % sh, 'expected exactly one arm template for %s variants, found %d: some variant would get no arm or two' % (sh, len(by_shape.get(sh, []))), msite)
+            ok = False
+    return by_shape if ok else None
